@@ -259,7 +259,9 @@ class Recorder:
                 if kind == "call":
                     x = (1 if (r.options and r.options.on_progress) else 0) + (2 if rid in self.cancelled else 0)
                 elif kind == "subscribe":
-                    x = getattr(r.handler.fn, "hid", -1)
+                    x = getattr(r.handler.fn, "hid", None)
+                    if x is None:                 # (check_types=True wraps the handler: identify it by the request)
+                        x = self.requests.get(rid, {}).get("hid", -1)
                 elif kind == "unsubscribe":
                     x = r.subscription_id
                 elif kind == "unregister":
@@ -268,7 +270,8 @@ class Recorder:
                     x = 0
                 items.append([rid, x])
             pend[kind] = items
-        subs = [[sid, [getattr(sub.handler.fn, "hid", -1) for sub in lst]] for sid, lst in sorted(s._subscriptions.items())]
+        known = {id(so): hid for (sid_, hid), lst_ in self.subs_objs.items() for so in lst_}
+        subs = [[sid, [getattr(sub.handler.fn, "hid", None) or known.get(id(sub), -1) for sub in lst]] for sid, lst in sorted(s._subscriptions.items())]
         invs = [[rid, bool(self.inv_rp.get(rid, False))] for rid in sorted(s._invocations)]
         return dict(tr=s._transport is not None, joined=s._session_id is not None, gb=bool(s._goodbye_sent),
                     nreq=self.last_req(), pend=pend, subs=subs, regs=sorted(s._registrations), invs=invs)
@@ -382,6 +385,8 @@ class Recorder:
             if with_details and details is not None:
                 sub = details.subscription
                 own = getattr(getattr(getattr(sub, "handler", None), "fn", None), "hid", None)
+                if own is None:     # a handler wrapped by check_types: identify the Subscription by object identity
+                    own = {id(so): h for (_, h), lst_ in self.subs_objs.items() for so in lst_}.get(id(sub))
                 if own != hid:
                     self.bad("argsOk", "handler %d was handed the subscription object of handler %r" % (hid, own))
         if hid in self.raising_handlers:
@@ -461,6 +466,10 @@ class Listener:
     @wamp.subscribe("com.myapp.topic3")
     def b_second(self, *a, **kw):
         self.rec.on_handler(3, a, kw, None, False)
+
+    @wamp.register("com.myapp.proc_on_listener")
+    def an_endpoint(self, *a, **kw):          # a procedure of the same object: subscribe(obj) has nothing to do with it
+        self.rec.bad("argsOk", "a registered procedure was invoked as an event handler")
 
 
 class capture_gather:
@@ -617,7 +626,7 @@ def scenario(rng, profile):
 
             def f():
                 opts = SubscribeOptions(details=True if hids[hid] else None, get_retained=gr) if (hids[hid] or gr is not None) else None
-                fut = s.subscribe(R.handlers[hid], topic, options=opts)
+                fut = s.subscribe(R.handlers[hid], topic, options=opts, check_types=(rng.random() < 0.3))
                 rid = R.last_req()
                 R.requests[rid] = dict(kind="subscribe", hid=hid, unsub_on_reply=(profile == "c11" and rng.random() < 0.15))
 
